@@ -235,9 +235,11 @@ func overlapCase(c *mon.Ctx, idx int64, r *rand.Rand) {
 	at := r.IntN(6) // which Read of A triggers B: the first ones belong to the detection window
 	reads := 0
 	var gotB []string
+	ranB := false
 	yr := &yieldReader{data: a, chunk: chunk}
 	yr.mark = func() {
 		if reads == at {
+			ranB = true
 			gotB = digests(astits.NewDemuxer(context.Background(), &yieldReader{data: b, chunk: 1 << 20}), api, limit)
 		}
 		reads++
@@ -253,12 +255,14 @@ func overlapCase(c *mon.Ctx, idx int64, r *rand.Rand) {
 		c.Violate("C16/overlap/panic", "overlap", idx, fmt.Sprintf("%v\n%s", v, st), nil)
 		return
 	}
-	c.Count("reentrant_overlaps")
+	if ranB {
+		c.Count("reentrant_overlaps")
+	}
 	data := map[string]any{"api": api, "seekable": seek, "chunk": chunk, "other_instance_runs_inside_read": at, "stream_a": mon.Hex(a, 800), "stream_b": mon.Hex(b, 800)}
 	if d := firstDifference(gotA, wantA); d != "" {
 		c.Violate("C16/overlap/instance-disturbed-by-another:"+api, "overlap", idx, "Demuxer A (another Demuxer ran inside one of its reads) vs alone: "+d, data)
 	}
-	if d := firstDifference(gotB, wantB); d != "" {
+	if d := firstDifference(gotB, wantB); d != "" && ranB { // (A may finish in fewer reads than the one chosen for B)
 		c.Violate("C16/overlap/instance-disturbed-by-another:"+api, "overlap", idx, "Demuxer B (run from inside a read of A) vs alone: "+d, data)
 	}
 	// (b)
